@@ -364,3 +364,88 @@ Theorem C01_reads_eval_example : exists st,
   AxisTypes.eval Z Z.add toy2 toy2_fs toy2_inp 3 1 = Some (AxisTypes.VInd [[1]; [4]; [58]]%Z).
 Proof. exact toy2_reads_eval. Qed.
 Print Assumptions C01_reads_eval_example.
+(** * Histories with scoped fork-mode switches — [with state.auto_fork(m): ...] (State/StateScoped.v)
+    [SScoped k m body] sets the mode of state [k] to [m], runs [body] until the first operation that returns an error (the
+    exception leaves the block and every enclosing one, and is caught by the caller) and ALWAYS puts the previous mode back.
+    [srun_now] executes such a history with the [step]s of the model above and returns the trace (every primitive event with
+    the store it was executed in); [visits] = every store the execution goes through; [hflat] = the plain history it amounts to. *)
+From Leaspy Require Import State.Revert State.StateScoped State.StateScopedProofs State.StateScopedExec State.StateScopedExecProofs.
+
+(** Never stale, at every point of the execution: inside blocks, after an exception has left a block, after the history. *)
+Theorem C01_never_stale_scoped :
+  forall (V M IX : Type) (g : graph V) (sm : sem V M IX),
+    WF g -> F_mix g sm ->
+    forall h, SMaskDisciplined g sm (init_store g) h ->
+    forall s', In s' (visits g sm true (init_store g) h) ->
+    forall k i st v, nth_error s' k = Some st ->
+      snd (step_now g sm s' (Get k i)) = Ok v -> scratch g (values st) i = Some v.
+Proof. intros V M IX g sm W Fm h. exact (scoped_never_stale_now V M IX g sm W h Fm). Qed.
+Print Assumptions C01_never_stale_scoped.
+
+(** ... in particular every read that the history executed returned the from-scratch evaluation (or the input error). *)
+Theorem C01_scoped_reads_are_scratch :
+  forall (V M IX : Type) (g : graph V) (sm : sem V M IX),
+    WF g -> F_mix g sm ->
+    forall h, SMaskDisciplined g sm (init_store g) h ->
+    forall e, In e (snd (srun_now g sm (init_store g) h)) ->
+    forall k i st, snd e = EOp (Get k i) -> nth_error (fst e) k = Some st ->
+      obs_of g sm true e = OOut (Get k i) (match scratch g (values st) i with Some v => Ok v | None => Err InputError end).
+Proof. intros V M IX g sm W Fm h. exact (scoped_executed_reads_now V M IX g sm W h Fm). Qed.
+Print Assumptions C01_scoped_reads_are_scratch.
+
+(** A history with scoped blocks is a plain history: same final store, same precondition (so every theorem above applies to it). *)
+Theorem C01_scoped_is_history :
+  forall (V M IX : Type) (g : graph V) (sm : sem V M IX) (s : store V) (h : list (sop V M IX)),
+    fst (srun_now g sm s h) = fst (run_now g sm s (hflat g sm true s h)) /\
+    (SMaskDisciplined g sm s h <-> MaskDisciplined g sm s (hflat g sm true s h)).
+Proof. exact scoped_is_history_now. Qed.
+Print Assumptions C01_scoped_is_history.
+
+(** The contract of the context manager: the body runs with the requested mode (values and undo log untouched by the
+    entry); whatever the body does — including raising — the state has its previous mode again after the block, and
+    leaving the block changes nothing else. *)
+Theorem C01_scoped_restores_mode :
+  forall (V M IX : Type) (g : graph V) (sm : sem V M IX) (fx : bool) (s : store V) (k : nat) (m : option fork_type)
+         (b : sblock V M IX) (st : state V),
+    nth_error s k = Some st ->
+    let r := sexec g sm fx s (SScoped k m b) in
+    let inner := bexec g sm fx (set_mode g sm fx s k m) b in
+    (exists st0, nth_error (set_mode g sm fx s k m) k = Some st0 /\ mode st0 = m /\ values st0 = values st /\ fork st0 = fork st) /\
+    snd r = snd inner /\
+    exists st1, nth_error (fst (fst inner)) k = Some st1 /\
+                nth_error (fst (fst r)) k = Some (mkState (values st1) (fork st1) (mode st)).
+Proof. exact scoped_restores_mode. Qed.
+Print Assumptions C01_scoped_restores_mode.
+
+(** The "later history" simulation of C02 ([C02_later_history]) for histories with scoped blocks: pairwise equivalent
+    stores stay equivalent and return the same results ([obs_agree]: equal except where an operation inspects the cache). *)
+Theorem C01_scoped_later_history :
+  forall (V M IX : Type) (g : graph V) (sm : sem V M IX) (fx chk : bool), WF g -> fx = true \/ chk = true ->
+  forall (h : list (sop V M IX)), F_mix g sm ->
+  forall s1 s2 : store V, sim_store g s1 s2 ->
+    SDisciplinedWith g sm fx (op_ok g sm chk) s1 h -> SDisciplinedWith g sm fx (op_ok g sm chk) s2 h ->
+    sim_store g (fst (srun g sm fx s1 h)) (fst (srun g sm fx s2 h)) /\
+    Forall2 (obs_agree g) (map (obs_of g sm fx) (snd (srun g sm fx s1 h))) (map (obs_of g sm fx) (snd (srun g sm fx s2 h))).
+Proof. intros V M IX g sm fx chk W H h. exact (scoped_later_history V M IX g sm fx chk W H h). Qed.
+Print Assumptions C01_scoped_later_history.
+
+(** Non-vacuity: c = a + b with a fork pending; an exception leaves [with auto_fork(None)]; the mode is REF again, the next
+    assignment is forked, its revert is accepted and the read is the fresh 12 — whereas the same operations with the mode left
+    at None (no [finally]) refuse the revert and read 22; two nested blocks on two states left by one exception. *)
+Theorem C01_scoped_examples :
+  (SMaskDisciplined (mk_graph f1_nodes) xsem_where (init_store (mk_graph f1_nodes)) sc_ops /\
+   nth_error (sobs_of (mk_graph f1_nodes) sc_ops) 7 = Some (OOut (Set_ 0 2 (Some (XS (AFin 5)))) (Err InputError)) /\
+   nth_error (sobs_of (mk_graph f1_nodes) sc_ops) 9 = Some (OSeen 0 (Some REF) (Some [(0, Some (XS (AFin 1))); (2, Some (XS (AFin 11)))])) /\
+   nth_error (sobs_of (mk_graph f1_nodes) sc_ops) 12 = Some (OOut (Revert 0) Done) /\
+   nth_error (sobs_of (mk_graph f1_nodes) sc_ops) 13 = Some (OOut (Get 0 2) (Ok (XS (AFin 12))))) /\
+  (nth_error (outs_of (mk_graph f1_nodes) (firstn 8 (hflat (mk_graph f1_nodes) xsem_where true (init_store (mk_graph f1_nodes)) sc_ops)
+                                            ++ [Set_ 0 1 (Some (XS (AFin 20))); Get 0 2; Revert 0; Get 0 2])) 10 = Some (Err InputError) /\
+   nth_error (outs_of (mk_graph f1_nodes) (firstn 8 (hflat (mk_graph f1_nodes) xsem_where true (init_store (mk_graph f1_nodes)) sc_ops)
+                                            ++ [Set_ 0 1 (Some (XS (AFin 20))); Get 0 2; Revert 0; Get 0 2])) 11 = Some (Ok (XS (AFin 22)))) /\
+  (SMaskDisciplined (mk_graph f1_nodes) xsem_where (init_store (mk_graph f1_nodes)) nested_ops /\
+   nth_error (sobs_of (mk_graph f1_nodes) nested_ops) 8 = Some (OSeen 1 (Some REF) None) /\
+   nth_error (sobs_of (mk_graph f1_nodes) nested_ops) 9 = Some (OSeen 0 (Some REF) (Some [(1, None); (2, None)]))) /\
+  check_scase_with xsem_where true (f1_nodes, sc_ops, sc_expected (Some REF)) = true /\
+  check_scase_with xsem_where true (f1_nodes, sc_ops, sc_expected None) = false.
+Proof. exact scoped_examples. Qed.
+Print Assumptions C01_scoped_examples.
